@@ -138,6 +138,14 @@ pub fn corpus(out: &mut Out, prop: &str) {
         sc(0, true, Command::LMove { source: k("l"), dest: k("l"), wherefrom: "LEFT".into(), whereto: "LEFT".into() }),
         sc(0, true, Command::Pttl(k("l"))),
     ]);
+    run_scripted(out, prop, "sort-stub-not-numeric", vec![
+        sc(0, true, Command::RPush(k("l"), vec![s("10"), s("9")])),
+        sc(0, true, Command::Sort { key: k("l"), store: None }),
+    ]);
+    run_scripted(out, prop, "sort-zset-unsupported", vec![
+        sc(0, true, Command::ZAdd { key: k("z"), pairs: vec![(1.0, s("5")), (2.0, s("3"))], nx: false, xx: false, gt: false, lt: false, ch: false }),
+        sc(0, true, Command::Sort { key: k("z"), store: None }),
+    ]);
     run_scripted(out, prop, "setrange-check-order", vec![
         sc(0, true, Command::RPush(k("l"), vec![s("a")])),
         sc(0, true, Command::SetRange(k("l"), 1 << 40, s("x"))),
@@ -159,7 +167,7 @@ pub fn run(a: &Args) {
 pub const FAMILIES: [&str; 8] = [
     "strings: GET SET(NX XX GET KEEPTTL EX PX EXAT PXAT) SETNX SETEX(=SET EX) APPEND GETSET STRLEN MGET MSET MSETNX GETRANGE SETRANGE GETEX GETDEL",
     "counters: INCR DECR INCRBY DECRBY",
-    "keys: DEL EXISTS TYPE KEYS(*) DBSIZE FLUSHDB FLUSHALL RANDOMKEY RENAME RENAMENX",
+    "keys: DEL EXISTS TYPE KEYS(*) DBSIZE FLUSHDB FLUSHALL RANDOMKEY RENAME RENAMENX SORT [STORE] (default numeric form, integer elements)",
     "expiry: EXPIRE PEXPIRE (NX XX GT LT) EXPIREAT PEXPIREAT TTL PTTL EXPIRETIME PEXPIRETIME PERSIST",
     "lists: LPUSH RPUSH LPOP RPOP LLEN LINDEX LRANGE LSET LTRIM RPOPLPUSH LMOVE",
     "sets: SADD SREM SMEMBERS SISMEMBER SCARD SPOP [count] (SPOP validated as a relation)",
